@@ -232,3 +232,9 @@ def run(ctx):
                  "(%s:%s) while the only consumer pops with USE_FUTEX_WAKE=false; with a full queue at close() the push can "
                  "sleep for ever. Entries written before close() are unaffected." % (s["fn"].file, s["line"]))
     L.check_queue_pairing(ctx, "C20.R4", [s for s in sites if s not in o1])
+
+
+SWEEP = ["logging/test_async_file_appender.cpp",
+         "logging/test_log_entry.cpp",
+         "logging/test_log_stream.cpp",
+         "logging/test_async_log_stream.cpp"]
